@@ -1085,6 +1085,26 @@ def build_kinds():
     ]))
     K[-1].sub2 = SH("legend")
 
+    # a legend the user dragged in PowerPoint: manual layout in "edge" mode (python-pptx itself writes "factor" only)
+    def prep_legend_edge(anchor):
+        from pptx.oxml import parse_xml
+
+        anchor.has_legend = True
+        layout = anchor.legend._element.get_or_add_layout()
+        for ch in list(layout):
+            layout.remove(ch)
+        layout.append(parse_xml(
+            '<c:manualLayout xmlns:c="http://schemas.openxmlformats.org/drawingml/2006/chart"><c:xMode val="edge"/>'
+            '<c:yMode val="edge"/><c:x val="0.7"/><c:y val="0.3"/><c:w val="0.2"/><c:h val="0.3"/></c:manualLayout>'))
+
+    K.append(Kind("legend-edge-layout", "Legend", b_bar_chart, sub=SH("chart"), prepare=prep_legend_edge, cost=2, rows=[
+        Row("horz_offset", D_float(-1.0, 1.0, extra_bnd=(0.0, 0, 0.5, -0.25)), ["x"], eq="=f",
+            src="chart/legend.py:37"),
+        Row("include_in_layout", D_bool(), [],
+            none=NoneSem(True, lambda o, ch: o._element.overlay is not None), src="chart/legend.py:58"),
+    ]))
+    K[-1].sub2 = SH("legend")
+
     K.append(Kind("category-axis", "CategoryAxis", b_bar_chart, sub=SH("chart.category_axis"),
                   locate=loc_cat_chart, cost=2, rows=axis_rows()))
     K.append(Kind("value-axis", "ValueAxis", b_bar_chart, sub=SH("chart.value_axis"),
